@@ -24,6 +24,9 @@ Good(e) ==
       [] e.ev = "issue" -> LET w == IssueWin(e.pw, e.at, e.dur)
                            IN  IF w = <<>> THEN e.err = "yes" ELSE e.err = "no" /\ e.w = w
       [] e.ev = "vissued" -> (e.ok = "yes") = (e.w[1] <= e.t /\ e.t < e.w[2])
+      \* an identity the issuing functions accepted: the certificate as a peer receives it parses, and verifies for
+      \* exactly the names the issuer was asked to certify (MatchesName: the (type, label) pair is among them)
+      [] e.ev = "vname" -> e.issued = "yes" => (e.reparse = "ok" /\ (e.ok = "yes") = (e.certified = "yes"))
       [] OTHER -> FALSE
 
 TInit == l = 1 /\ bad = 0 /\ cfg = Base1
